@@ -251,9 +251,12 @@ def run(ctx):
                 "prefixes {none, 00..08, ff} x x in [0, p+8] + aliases x (roots, roots+-1, y+p, 0, p-1, p, random y); compressed "
                 "prefixes x %s; every length 0..9; every on-curve point object and a grid of off-curve pairs; TLC decides accept/"
                 "reject and the decoded point from PointCodec.tla (range, curve equation, residue+parity, subgroup by n*P); "
+                "point objects of another curve over the same field; complete encodings behind / followed by one more byte (bare, DER, PEM); "
+                "one-byte fields T23 / T43: two-byte strings not starting with 02 / 03 as raw keys, prefixed triples; "
                 "non-trivial = distinct (curve, entry point, input)" % ("every x in [0, 65535]" if not quick else "x in [0, p+8] + 200 random"))
     ctx.exhaustive = False
-    ctx.assumptions += ["1-byte fields are outside the property's domain (raw and compressed lengths coincide; from_string tries raw first)",
+    ctx.assumptions += ["on 1-byte fields raw and compressed lengths coincide: two-byte strings starting with 02 / 03 are not offered "
+                        "(PointModel refutes the compressed round trip there, used as a probe)",
                         "production curves: see 'production' events (constructed classes; subgroup check only on secp112r2)"]
 
 
